@@ -76,8 +76,8 @@ pub fn tool_main(args: &[String]) -> i32 {
             println!("{}", crate::props::c13::count_space(std::env::var("LIM").ok().and_then(|s| s.parse().ok()).unwrap_or(1_000_000)));
             0
         }
-        "calib-make" => calib_make(&format!("{}/corpus/calibration", crate::harness::VERIF)),
-        "calib-check" => match calib_check(&format!("{}/corpus/calibration", crate::harness::VERIF)) {
+        "calib-make" => calib_make(&format!("{}/corpus/calibration", crate::harness::verif_root())),
+        "calib-check" => match calib_check(&format!("{}/corpus/calibration", crate::harness::verif_root())) {
             Ok((n, w)) => {
                 println!("calibration ok: {} stored programs, {} with maintainers' expectations reproduced", n, w);
                 0
